@@ -12,12 +12,21 @@ import (
 // ready at the deadline (model time).
 type hCtx struct {
 	done      <-chan struct{}
+	deadline  int64
+	has       bool
 	cancelled int
 }
 
+var errDeadline = errors.New("context deadline exceeded")
+
 func (c *hCtx) Deadline() (time.Time, bool) { return time.Time{}, false }
 func (c *hCtx) Done() <-chan struct{}       { return c.done }
-func (c *hCtx) Err() error                  { return nil }
+func (c *hCtx) Err() error {
+	if c.has && (c.cancelled > 0 || vp.Now() >= c.deadline) {
+		return errDeadline
+	}
+	return nil
+}
 func (c *hCtx) Value(key any) any           { return nil }
 
 //vp:model context.Background
@@ -25,14 +34,14 @@ func m_Background() context.Context { return &hCtx{} }
 
 //vp:model context.WithTimeout
 func m_WithTimeout(parent context.Context, d time.Duration) (context.Context, context.CancelFunc) {
-	c := &hCtx{done: vp.DoneChan(int64(d))}
+	c := &hCtx{done: vp.DoneChan(int64(d)), deadline: vp.Now() + int64(d), has: true}
 	return c, func() { c.cancelled++ }
 }
 
 //vp:model time.After
 func m_After(d time.Duration) <-chan time.Time { return vp.TimerChan(int64(d)) }
 
-const maxCalls = 12
+const maxCalls = 48
 
 // hGetter is the wrapped getter: every call takes an arbitrary time >= 0 and
 // fails or succeeds as the inputs say.
@@ -89,7 +98,10 @@ func h20(K int) {
 	header, body, err := r.Get("https://example/collateral")
 	t1 := vp.Now()
 	vp.Assert("attempts-bounded", g.calls <= K)
+	// the first attempt is always made, whatever the timeout
+	vp.Assert("at-least-one-attempt", g.calls >= 1)
 	vp.Reach("first-try-success", vp.And(err == nil, g.calls == 1))
+	vp.Reach("zero-timeout-first-try-success", vp.And(err == nil, timeout == 0))
 	vp.Reach("retry-then-success", vp.And(err == nil, g.calls > 1))
 	vp.Reach("gives-up", err != nil)
 	if err == nil {
